@@ -6,6 +6,7 @@ mod law;
 mod model;
 mod props;
 mod report;
+mod target;
 mod util;
 mod vrlx;
 mod vv;
@@ -22,6 +23,15 @@ fn registry() -> Vec<(&'static str, RunFn, ReplayFn)> {
         ("C11", props::ops::run_c11, props::ops::replay),
         ("C18", props::c18::run, props::c18::replay),
         ("C19", props::c19::run, props::c19::replay),
+        ("C01", props::pm::run_c01, props::pm::replay),
+        ("C02", props::pm::run_c02, props::pm::replay),
+        ("C12", props::pm::run_c12, props::pm::replay),
+        ("C16", props::pm::run_c16, props::pm::replay),
+        ("C06", props::diff::run_c06, props::diff::replay),
+        ("C07", props::diff::run_c07, props::diff::replay),
+        ("C08", props::diff::run_c08, props::diff::replay),
+        ("C09", props::diff::run_c09, props::diff::replay),
+        ("C13", props::diff::run_c13, props::diff::replay),
     ]
 }
 
@@ -104,6 +114,44 @@ fn main() {
                 std::process::exit(1);
             }
             println!("replay: the recorded violation does not reproduce on this tree");
+        }
+        "benchpar" => {
+            let nt: usize = args.get(2).and_then(|s| s.parse().ok()).unwrap_or(16);
+            let t = std::time::Instant::now();
+            std::thread::scope(|s| {
+                for _ in 0..nt {
+                    s.spawn(|| {
+                        let fns = vrlx::fns();
+                        for _ in 0..20000 {
+                            let mut c = vrl::compiler::CompileConfig::default();
+                            c.disable_unused_expression_check();
+                            let src = std::env::var("BSRC").unwrap_or_else(|_| "x = to_int(.a) ?? \"d\"".into());
+                            if std::env::var("BPARSE").is_ok() { let _ = vrl::parser::parse(&src); continue; }
+                            let _ = vrlx::compile_ext(&src, &fns, &vrl::compiler::state::ExternalEnv::default(), c);
+                        }
+                    });
+                }
+            });
+            println!("{nt} threads: {:.1} us/compile/thread", t.elapsed().as_secs_f64() * 1e6 / 20000.0);
+        }
+        "bench" => {
+            let fns = vrlx::fns();
+            for src in ["x = 1", ".a[-3] = 1", "x = map_values(x) -> |v| { y = v; 1 }", "x = to_int(.a) ?? \"d\"", "x = nosuch(.a)", "y = 10 / x"] {
+                let n = 2000;
+                let t = std::time::Instant::now();
+                let mut ok = 0;
+                for _ in 0..n {
+                    let mut c = vrl::compiler::CompileConfig::default();
+                    c.disable_unused_expression_check();
+                    if vrlx::compile_ext(src, &fns, &vrl::compiler::state::ExternalEnv::default(), c).is_ok() { ok += 1; }
+                }
+                println!("{src:50} {:8.1} us/compile ok={ok}", t.elapsed().as_secs_f64() * 1e6 / f64::from(n));
+                let t = std::time::Instant::now();
+                for _ in 0..n {
+                    let _ = vrl::parser::parse(src);
+                }
+                println!("{:50} {:8.1} us/parse", "", t.elapsed().as_secs_f64() * 1e6 / f64::from(n));
+            }
         }
         "worker" => {
             eprintln!("no worker kinds yet");
